@@ -99,7 +99,7 @@ impl Prop for C11 {
         CaseReport { nontrivial, classes, viol }
     }
     fn cases(tier: Tier) -> u64 {
-        scale(tier, 24000, 6_000_000)
+        scale(tier, 240_000, 6_000_000)
     }
     fn rule() -> &'static str {
         "one generated config + history (all alloc flavours, drop/detach/dealloc, discard_freelist, set_minimum_segment_size, increase_discarded, rewind, clear; Vec/anon/file) run on sync::Arena and on unsync::Arena; after every step the observation tuples (result kind, offset, capacity, buffer extent, allocated, discarded, remaining, capacity, min segment, refs, free-list snapshot) must be equal; a panic or oracle failure on one side only is a violation. Non-trivial = the history contains a slow-path allocation and a remainder split"
@@ -205,7 +205,7 @@ impl Prop for C17 {
         CaseReport { nontrivial, classes, viol }
     }
     fn cases(tier: Tier) -> u64 {
-        scale(tier, 32000, 8_000_000)
+        scale(tier, 320_000, 8_000_000)
     }
     fn rule() -> &'static str {
         "histories with boundary-dense ArenaPosition values (Start/End/Current at 0, data_offset+-3, allocated+-3, capacity+-3, u32/i64 extremes, -allocated+-3, capacity-allocated+-3) issued in every reachable state under rewind's contract (handles above the target are forgotten first, a free list reaching above it is discarded first); oracle: allocated() == clamp(target computed in i128, data_offset, capacity), nothing else changes, no panic in the checked or the unchecked build. Then clear() followed by a generated continuation, which is also run on a fresh arena with the same options + set_minimum_segment_size(current): cursor at data_offset, empty list, discarded 0, zeroed data area, and equal observation streams. Non-trivial = the history moved the cursor by rewind, had recycled/segment activity, and cleared"
@@ -414,7 +414,7 @@ impl Prop for C16 {
         r
     }
     fn cases(tier: Tier) -> u64 {
-        scale(tier, 16000, 3_000_000)
+        scale(tier, 160_000, 3_000_000)
     }
     fn rule() -> &'static str {
         "constructor cases: reserved 0..=4096, capacity = prefix + delta (delta -40..3000, dense at -3..=3), unify on/off, Vec/anon/file, both flavours: construction succeeds iff capacity >= Options::data_offset / data_offset_unify (the API's own functions are the reference) and fails with InsufficientSpace (Vec) / InvalidInput (maps); data_offset(), first allocation offset, reserved_slice length, remaining law and the descriptive accessor table match the constructor used. Then one generated history is run with unify=true on Vec, anon and file arenas: observation tuples and a hash of memory() equal after every step, final memory() equal. Reserved prefix pattern checked after every step. Non-trivial = reserved not a multiple of 8 or capacity within +-1 of the prefix"
